@@ -1,14 +1,22 @@
 #!/bin/bash
-# usage: round2.sh <ID> [pkgs...] : verify the round-2 seeds of <ID> in its scratch worktree and import the confirmed ones as <ID>-4..6
-id=$1; shift
+# usage: round2.sh verify <ID> [pkgs...]   — confirm the round-2 seeds of <ID> in its scratch worktree (does not touch /repo)
+#        round2.sh import <ID>             — import the confirmed ones as seeded/<ID>-4..6 (applies to /repo: run alone)
+mode=$1; id=$2; shift 2
 mkdir -p /tmp/seedverify
-for k in 1 2 3; do
-  [ -f /tmp/seedout2/$id/$k/patch.diff ] || continue
-  r=$(./verify_seed.sh /tmp/seedout2/$id/$k /tmp/wt2-$id "$@" 2>&1 | grep "^RESULT" | tail -1)
-  echo "$r" >> /tmp/seedverify/$id.r2.log
-  if echo "$r" | grep -q "demo_with_change_exit=[1-9].*existing_tests_exit=0.*demo_pristine_exit=0"; then
-    python3 import_seed.py $id $k "$r" /tmp/seedout2 $((k+3)) | tail -1
-  else
-    echo "NOT CONFIRMED $id/$k: $r"
-  fi
-done
+if [ "$mode" = verify ]; then
+  : > /tmp/seedverify/$id.r2.log
+  for k in 1 2 3; do
+    [ -f /tmp/seedout2/$id/$k/patch.diff ] || continue
+    ./verify_seed.sh /tmp/seedout2/$id/$k /tmp/wt2-$id "$@" 2>&1 | grep "^RESULT\|attempt" >> /tmp/seedverify/$id.r2.log
+  done
+  echo "verified $id" >> /tmp/seedverify/$id.r2.log
+else
+  for k in 1 2 3; do
+    r=$(grep "^RESULT /tmp/seedout2/$id/$k " /tmp/seedverify/$id.r2.log | tail -1)
+    if echo "$r" | grep -q "demo_with_change_exit=[1-9].*existing_tests_exit=0.*demo_pristine_exit=0"; then
+      python3 import_seed.py $id $k "$r" /tmp/seedout2 $((k+3)) | tail -1
+    else
+      echo "NOT CONFIRMED $id/$k: $r"
+    fi
+  done
+fi
